@@ -26,6 +26,9 @@ IOP = 'beartype/_data/cls/pep/pep544/io/dataclspep544io.py'
 
 # name: (files, edit, expectations, why)
 M = {
+    'union-refetches-item-for-first-subscripted-member': ([UN], sub(UN,
+        "                        hint_childs_nonpep or\n", "                        False or\n"),
+        {'C09': 'C09.R5', 'C10': None}, 'list[int | list[str]] reads the sampled item twice (seeded C09-12)'),
     'textio-hook-reads-the-stream': ([IOP], sub(IOP, "'b' not in obj.mode", "not isinstance(obj.read(0), bytes)"),
         {'C10': 'C10.R6'}, 'checking a stream against TextIO calls its read() (seeded C10-12)'),
     'binaryio-hook-mode-via-getattr': ([IOP], sub(IOP, "'b' in obj.mode", "'b' in getattr(obj, 'mode')"),
